@@ -7,6 +7,7 @@ mod hist;
 pub mod isolate;
 mod model;
 mod props2;
+mod props_cluster;
 mod props_conc;
 mod props_crash;
 mod props_damage;
@@ -107,6 +108,7 @@ pub fn main_entry() {
         "C02" => props_crash::c02(&mut ctx),
         "C03" => props_crash::c03(&mut ctx),
         "C32" => props_crash::c32(&mut ctx),
+        "C31" => props_cluster::c31(&mut ctx),
         "C07" => props_damage::c07(&mut ctx),
         "C04" => props_storage::c04(&mut ctx),
         "C05" => props2::c05(&mut ctx),
@@ -145,6 +147,7 @@ fn replay_one(id: &str, path: &str) -> i32 {
         "C02" => props_crash::c02_replay(path),
         "C03" => props_crash::c03_replay(path),
         "C32" => props_crash::c32_replay(path),
+        "C31" => props_cluster::c31_replay(path),
         "C07" => props_damage::c07_replay(path),
         "C04" => props_storage::c04_replay(path),
         "C05" => props2::c05_replay(path),
